@@ -108,6 +108,7 @@ def check(ctx):
         ctx.ob("a.who", "claim-after-silence|%s" % f.name.split("::")[-1], ok, "the token is claimed without `now - last_bus_activity >= token_lost_timeout()`: " + w, f.loc(b))
     from rules import C12
     C12.check_truthful(ctx, P)
+    check_one_reply_and_rx(ctx, P, sites)
     # ---------------- b ---------------------------------------------------------------------------
     memo = {}
 
@@ -274,6 +275,72 @@ def check(ctx):
 
 
 _g = {}
+
+
+def check_one_reply_and_rx(ctx, P, sites):
+    """a.who (one reply per request): after a status reply has been handed to the PHY the recorded request is cleared on every path
+    to the function's exit - otherwise the station repeats the reply on every poll without holding the token.
+    g.rx: every callback that is handed a received telegram resets the pending-byte counter (mark_rx) on all paths; the counter
+    is what tells a partially received telegram from silence before this station transmits."""
+    from analysis.modset import ModSets
+    ms = ModSets(P)
+    n = 0
+    for f, b, c in sites:
+        kind, cf = classify(P, f, c)
+        if kind != "status-response":
+            continue
+        n += 1
+        marks = {(b, None): "sresp"}
+        for tb_, tc in call_sites(f, lambda c_: "fdl::active::State::transition_" in (c_.get("callee") or "")):
+            marks[(tb_, None)] = "replace"  # the whole state is replaced; every constructor starts without a recorded request (checked below)
+        g = GuardAnalysis(f, P, mem_kill=True, modsets=ms, marks=marks)
+        bad = []
+        for rb in f.return_blocks:
+            for fs in g.at(rb):
+                if g.count_of(fs, "sresp") == {0}:
+                    continue
+                if 0 not in g.count_of(fs, "replace"):
+                    continue
+                cleared = any(k[0] == "discr" and (path_str(k[1]) or "").endswith(".status_request") and vs == ("in", frozenset(["None"])) for k, vs in fs.items())
+                if not cleared:
+                    bad.append(M.fmt_facts(fs)[:200])
+        ctx.ob("a.who", "request-cleared-after-reply|%s" % f.name.split("::")[-1], not bad,
+               "a status reply is transmitted but the recorded request is still set when the function returns (the reply would be repeated "
+               "on every poll): %s" % "; ".join(bad[:1]), f.loc(b))
+    ctx.anchor("status reply sites checked for clearing the request", n, 2)
+    from analysis.query import constructions
+    badc = []
+    ncons = 0
+    for var in P.enum_variants(CR, "fdl::active::State") or []:
+        for c_ in constructions(P, CR, "fdl::active::State", var):
+            rv = c_["rv"]
+            if "status_request" in (rv.get("fnames") or []):
+                ncons += 1
+                fo = rv["fields"][rv["fnames"].index("status_request")]
+                t_ = TermBuilder(c_["fn"], P).joperand(fo)
+                if not (t_[0] == "agg" and t_[2] == "None"):
+                    badc.append(c_["fn"].loc(c_["b"], c_["i"]))
+    ctx.ob("a.who", "state-constructed-without-request", ncons >= 2 and not badc, "a station state is constructed with a recorded status request at %s" % badc)
+    # g.rx
+    m = 0
+    for f in fdl_fns(P):
+        for b, c in call_sites(f, lambda c: callee_is(c, "phy::ProfibusPhy::receive_telegram", "phy::ProfibusPhy::receive_all_telegrams")):
+            tb = TermBuilder(f, P)
+            clo = tb.joperand(c["args"][-1])
+            if not (clo[0] == "agg" and str(clo[1]).startswith("closure:")):
+                ctx.ob("g.rx", "closure|%s" % f.name.split("::")[-1], False, "receive callback is not a closure literal", f.loc(b))
+                continue
+            cf = P.get(CR, clo[1][len("closure:"):])
+            if cf is None:
+                continue
+            m += 1
+            marks = {(cb, None): "rx" for cb, cc in call_sites(cf, lambda cc: callee_is(cc, ST + "::mark_rx"))}
+            g = GuardAnalysis(cf, P, marks=marks)
+            bad = [cf.loc(rb) for rb in cf.return_blocks for fs in g.at(rb) if 0 in g.count_of(fs, "rx")]
+            ctx.ob("g.rx", "mark_rx|%s" % cf.name.split("::", 3)[-1], not bad,
+                   "a received telegram is processed without resetting the pending-byte count (mark_rx) on a path returning at %s: bytes of a later, "
+                   "still incomplete telegram would not be recognised as bus activity" % sorted(set(bad))[:2], cf.loc(0))
+    ctx.anchor("telegram receive callbacks in the active station", m, 4)
 
 
 def g_cache(P, f):
